@@ -153,11 +153,11 @@ def build(run):
             run.add(static(f"{fq}/exists", False, f"function under contract not found: {ex_}", fn=fq))
 
 
-    budget = 150 if run.tier == "quick" else 3000
+    budget = 2000 if run.tier == "quick" else 40000
     run.bounded("engine.Engine.process/pipeline.runtime", W_N, "replay_pipeline", [dict(seed=run.seed, budget=budget)],
                 bound=f"{budget} generated engines (1-3 inputs, 1-2 outputs, 1-2 rule blocks, nested and/or antecedents with hedges and `any`, weights, enabled/disabled rules, blocks and "
                       "variables, output variables in antecedents, Mamdani and Takagi-Sugeno outputs, lock/default settings) x 3 successive steps x input rows incl. bounds, out of range, +-inf, NaN; "
-                      "General activation; against an independently wired reference pipeline")
+                      "all seven activation methods (one-pass methods evaluate every rule on the outputs accumulated so far); against an independently wired reference pipeline")
 
 
 if __name__ == "__main__":
